@@ -5,7 +5,7 @@ sys.path.insert(0, os.path.dirname(os.path.abspath(__file__)))
 from props import PROPS
 
 NOTE = ('Trusted: Coq 8.16.1 kernel (no axioms: every property theorem is "Closed under the global context"); the hand-written Gallina model, tied to /repo by the '
-        'correspondence check run on every invocation (extracted with ExtrOcamlBasic only, OCaml driver, Go harness on the public API); Go library functions are modelled, '
+        'correspondence check run on every invocation (extracted with ExtrOcamlBasic only, OCaml driver, Go harness on the public API plus read-only accessors in stack/verif_hooks.go, build tag verif); Go library functions are modelled, '
         'not verified (DESIGN.md section 5).')
 
 CLAIMS = {
@@ -19,7 +19,7 @@ CLAIMS = {
          'sleep range = exact min/max; locked iff some member is), C12_unstarred_is_common; correspondence on the full merged signature', 'section 6 C12',
          'Coq invariant proof over the merge sequence + correspondence'),
  'C13': ('proof', 'C13_stack_less_swo / C13_sig_less_swo (Stack.less and Signature.less are strict weak orders on all inputs), C13_bucket_before_swo, C13_sorted (+ First leads, stdlib-only buckets last), C13_sorted_unique (any stable sort gives this list), '
-         'C13_aggregate_order, C13_less_never_panics; correspondence: Signature.less observed through bucket order on triples, bucket order of aggregated snapshots', 'section 6 C13',
+         'C13_aggregate_order, C13_less_never_panics; correspondence: Signature.less called directly (hook) and observed through bucket order on triples, with the four order laws checked on the answers of the implementation; bucket order of aggregated snapshots', 'section 6 C13',
          'Coq order-theory proof (less = lexicographic comparison of an explicit key) + correspondence'),
  'C15': ('proof', 'C15_labelling / C15_laws: for every snapshot without names nameArguments produces a labelling satisfying the independently written c15_ok (same value <=> same name, every recurring pointer named, #1..#k dense, ascending, '
          'first-goroutine pointers first, non-pointers never named, no other field changed), C15_consistent; correspondence on dumps scanned with NameArguments on/off', 'section 6 C15',
@@ -41,7 +41,7 @@ CLAIMS = {
          'Coq proofs over the token-level renderer model + byte-exact correspondence with the pp binary'),
  'C17': ('proof', '25 theorems: C17_text_safe / C17_text_chunks / C17_text_amp (escaped text never contains < > " \' NUL and every & starts one of the six entities), C17_attr_safe / C17_attr_no_danger / C17_href_safe (a normalised URL contains no quote, space, angle bracket, '
          'backquote, backslash or control byte, for ALL byte strings), C17_url_scheme + C17_normalize_prefix + C17_href_scheme (every link starts with one of five fixed scheme+host prefixes whatever the dump contains), C17_class_safe, C17_src_url_path_confined, C17_attrs_total; '
-         'correspondence: every href/class of the content region equals the model value; oracle: tokenised structure equals that of a benign twin. Partial: the composition through html/template and the HTML tokenizer is modelled hole by hole, not as a whole-document theorem', 'section 6 C17',
+         'correspondence: every href/class of the content region equals the model value; oracle: tokenised structure equals that of a benign twin. C17b/C17c: a BYTE-EXACT model of the whole document (Model/HtmlDoc.v, Model/HtmlPage.v; template literals in Model/HtmlTpl.v generated from stack/goroutines.tpl and checked current on every run): C17_page_holes_escaped, C17_page_literals_from_template, C17_page_skeleton_shape_only, C17_page_complete, C17_page_deterministic, C17_page_links; the whole document is compared byte for byte on every case. Partial: the HTML tokenizer is not modelled (tokenised differential oracle), formerly hole by hole, not as a whole-document theorem', 'section 6 C17',
          'Coq proofs about the hand-built trusted values and the escapers + tokenised differential oracle (hostile snapshot vs benign twin)'),
  'C01': ('proof', 'C01_fidelity: for every well-formed variant and dump (wf_dump: the boolean side conditions real runtime output meets) and every stall-free delivery schedule, scanning the text written by the printer model (Spec/Printer.v, '
          'following runtime/traceback.go and objabi.PathToPrefix) yields exactly snapshot_of d, forwards nothing, hands back nothing, EOF; with the line-level round trips (header, func, file, created-by, arguments up to depth 5, symbols with escapes), '
@@ -49,7 +49,8 @@ CLAIMS = {
          'Coq round-trip proof parser(printer(d)) = d against a printer specification + three-way differential check'),
  'C07': ('proof', 'C07_scan_is_fold (ScanSnapshot = a fold of scan over the lines, for every stall-free schedule), C07_ends_at_first_non_continuing, C07_progress(_strong), C07_seq_total / C07_seq_fuel_enough (the documented resume loop terminates), '
          'C07_seq_conservation (no stream position scanned twice or skipped), C07_dump_alone_equals_in_stream and C07_resume (k dumps separated by junk: exactly one snapshot per dump, equal to scanning it alone; all other bytes forwarded in order), C07_start_anywhere; '
-         'correspondence on the resume protocol with MultiReader(suffix, rest). The reference line-kind automaton of DESIGN section 6 was not built: delimitation is stated directly on scan (the delimits hypothesis)', 'section 6 C07',
+         'correspondence on the resume protocol with MultiReader(suffix, rest). C07c: C07_refines (for every state and line the control of scan - next state, consumed / forwarded / dump ends / error - equals the reference line-kind automaton Spec/RefGrammar.ref_step, a table with one arm per state), '
+         'C07_refines_trace, C07_start_lines / C07_forward_lines / C07_end_lines / C07_invalidating_lines (the table read off as theorems); op step drives scanningState.scan line by line (hook) against the model', 'section 6 C07',
          'Coq proof of the resume protocol over the fold characterisation + differential check of the iterated scan'),
  'C08': ('proof', 'C08_fidelity: for every well-formed race report (>= 1 creation section), arbitrary text before and after, any stall-free schedule and terminal error: the snapshot is race_snapshot_of r, the text before is forwarded, the text after handed back, error nil, final state done; '
          'C08_unknown_creator(_report) (a creation section for a goroutine of no operation is an error and changes nothing), header matcher round trips; C08_no_creation_section documents that a report without any creation section ends with an error (outside the statement)', 'section 6 C08',
@@ -72,7 +73,8 @@ CLAIMS = {
          'Coq oracle-independence proof + repeated-execution differential check'),
  'C19': ('proof', 'Spec/Abi.v (word encoding per parameter kind) + C19_truthful (decode o encode = show for every parameter list over the supported kinds and all in-range values), C19_truthful_ptr_receiver, C19_signed_of_zext, C19_total (never panics, fuel suffices; the one Panic corner extra=true with no parameter is unreachable), '
          'C19_arity_mismatch_harmless, C19_extra_words_rendered_raw; correspondence on synthetic tracebacks over generated source trees (incl. two packages sharing function names, closing-brace lines, missing / unparsable / shifted sources) and on REAL tracebacks of generated programs compiled with the installed toolchain. '
-         'Partial: go/parser and ast.Inspect are abstracted to the list of parameter type names; the toolchain encoding is validated by the compiled programs, not proved', 'section 6 C19',
+         'C19b (Model/Source.v): getFuncAST, matchFuncDecl and extractArgumentsType over the tree ast.Inspect shows: C19_source_total, C19_select_spec, C19_selected_matches_frame, C19_wrong_name_unaugmented, C19_one_line_func_unaugmented, C19_types_shape, C19_types_compose; op ast (hook) on generated and standard-library files. '
+         'Partial: go/parser itself is abstracted to the tree it produces (built by the harness with go/parser); the toolchain encoding is validated by the compiled programs, not proved', 'section 6 C19',
          'Coq decode-encode proof against an ABI specification + compiled-program differential check'),
  'C20': ('proof', 'C20_handler_table (exact decision table of SnapshotHandler as iffs), C20_2xx_only_if_valid, C20_invalid_is_4xx, C20_valid_get_ok, C20_atoi_* (strconv.Atoi), C20_capture (the grow-and-retry loop terminates for every int, never exceeds max(maxmem, 1 MiB), captures the dump whole iff it fits); '
          'the parse half is C01_fidelity applied to the printer model; correspondence: status class under httptest over parameter combinations, big-process capture cases, live runtime.Stack dumps under churn (header count, known goroutines). '
